@@ -31,6 +31,10 @@ pub enum Op {
     Close { s: u16 },
     /// poll the receiver once with a fresh counting waker
     Poll,
+    /// the same through `Receiver::recv()` (future created, polled once, dropped)
+    PollRecv,
+    /// poll with one of two long-lived wakers (a task that is re-polled keeps its waker)
+    PollSame { w: u8 },
     /// Receiver::sender()
     SenderFromReceiver,
     DropReceiver,
@@ -59,15 +63,16 @@ fn check_inner(c: &Case) -> CaseResult {
     let mut closed = false;
     let mut next_val = 0u32;
     // wakers of Pending polls; parked = index of the most recent one still owed a wake-up
-    let mut wakers = vec![];
-    let mut parked: Option<(usize, usize)> = None;
+    let reusable = [count_waker(), count_waker()];
+    let mut same_waker_repoll = false;
+    let mut last_pending_same: Option<u8> = None;
+    let mut parked: Option<(std::sync::Arc<crate::c17::CountWaker>, usize)> = None;
     let mut obs = Obs::new();
     let (mut wake_after_pending, mut close_then_poll, mut received, mut ended) = (false, false, 0u32, false);
 
     macro_rules! owed_wake {
         ($step:expr, $what:expr) => {
-            if let Some((w, at)) = parked.take() {
-                let (cw, _): &(std::sync::Arc<crate::c17::CountWaker>, std::task::Waker) = &wakers[w];
+            if let Some((cw, at)) = parked.take() {
                 let now = cw.0.load(Ordering::SeqCst);
                 wake_after_pending = true;
                 vensure!(now > at, "C16/lost-wakeup",
@@ -139,11 +144,23 @@ fn check_inner(c: &Case) -> CaseResult {
                     owed_wake!(step, "close()");
                 }
             }
-            Op::Poll => {
+            Op::Poll | Op::PollRecv | Op::PollSame { .. } => {
                 let Some(r) = rx.as_mut() else { continue };
-                let cw = count_waker();
+                let cw = match op {
+                    Op::PollSame { w } => {
+                        let (a, wk) = &reusable[(*w % 2) as usize];
+                        (a.clone(), wk.clone())
+                    }
+                    _ => count_waker(),
+                };
                 let mut cx = Context::from_waker(&cw.1);
-                let got = Pin::new(r).poll_next(&mut cx);
+                let got = if matches!(op, Op::Poll) {
+                    Pin::new(r).poll_next(&mut cx)
+                } else {
+                    use std::future::Future;
+                    let mut fut = Box::pin(r.recv());
+                    fut.as_mut().poll(&mut cx)
+                };
                 let want: Poll<Option<u32>> = if let Some(v) = queue.pop_front() {
                     Poll::Ready(Some(v))
                 } else if closed || senders.is_empty() {
@@ -156,10 +173,21 @@ fn check_inner(c: &Case) -> CaseResult {
                 }
                 vensure!(got == want, if closed && !senders.is_empty() && want == Poll::Ready(None) { "C16/closed-not-ended" } else { "C16/poll-mismatch" },
                     "step {}: poll_next returned {:?}, model says {:?} (closed={}, senders={}); ops {:?}", step, got, want, closed, senders.len(), c.ops);
+                if !matches!(got, Poll::Pending) {
+                    last_pending_same = None;
+                }
                 match got {
                     Poll::Pending => {
-                        wakers.push(cw);
-                        parked = Some((wakers.len() - 1, 0));
+                        if let Op::PollSame { w } = op {
+                            if last_pending_same == Some(*w % 2) {
+                                same_waker_repoll = true;
+                            }
+                            last_pending_same = Some(*w % 2);
+                        } else {
+                            last_pending_same = None;
+                        }
+                        let at = cw.0 .0.load(Ordering::SeqCst);
+                        parked = Some((cw.0.clone(), at));
                     }
                     Poll::Ready(Some(_)) => received += 1,
                     Poll::Ready(None) => ended = true,
@@ -193,6 +221,7 @@ fn check_inner(c: &Case) -> CaseResult {
     }
     obs.nontrivial = wake_after_pending || (close_then_poll && !senders.is_empty());
     obs.label_if(wake_after_pending, "wake-after-pending");
+    obs.label_if(same_waker_repoll, "same-waker-repoll");
     obs.label_if(close_then_poll, "poll-after-close");
     obs.label_if(received >= 2, "received>=2");
     obs.label_if(ended, "stream-ended");
@@ -200,7 +229,8 @@ fn check_inner(c: &Case) -> CaseResult {
     Ok(obs)
 }
 
-const ALPHA: [Op; 9] = [
+const ALPHA: [Op; 10] = [
+    Op::PollSame { w: 0 },
     Op::Send { s: 0 },
     Op::Send { s: 65535 },
     Op::CloneSender { s: 0 },
@@ -219,7 +249,9 @@ fn op() -> impl Strategy<Value = Op> {
         2 => any::<u16>().prop_map(|s| Op::CloneSender { s }),
         3 => any::<u16>().prop_map(|s| Op::DropSender { s }),
         2 => any::<u16>().prop_map(|s| Op::Close { s }),
-        6 => Just(Op::Poll),
+        3 => Just(Op::Poll),
+        2 => Just(Op::PollRecv),
+        3 => (0u8..2).prop_map(|w| Op::PollSame { w }),
         1 => Just(Op::SenderFromReceiver),
         1 => Just(Op::DropReceiver),
     ]
@@ -247,7 +279,9 @@ pub fn case_from_bytes(data: &[u8]) -> Case {
                     5 | 6 => Op::CloneSender { s },
                     7 | 8 => Op::DropSender { s },
                     9 => Op::Close { s },
-                    10..=13 => Op::Poll,
+                    10 | 11 => Op::Poll,
+                    12 => Op::PollSame { w: (*b >> 4) & 1 },
+                    13 => Op::PollRecv,
                     14 => Op::SenderFromReceiver,
                     _ => Op::DropReceiver,
                 }
@@ -256,10 +290,10 @@ pub fn case_from_bytes(data: &[u8]) -> Case {
     }
 }
 
-const RULE: &str = "operation sequences over {send, Sink send, clone sender, drop a sender, close, poll receiver with a fresh counting waker, sender-from-receiver, drop receiver} with <=3 senders, applied to local_channel::mpsc and to a reference queue model; send must fail exactly when the receiver is gone or the channel closed (returning the item); poll_next must equal the model; a Pending poll's waker must be woken by the next successful send, the last sender's drop and close (extra wake-ups allowed); a final drain must return the buffered items in order; non-trivial = a Pending poll followed by send/last-drop/close, or close with a live sender followed by a poll";
+const RULE: &str = "operation sequences over {send, Sink send, clone sender, drop a sender, close, poll receiver with a fresh counting waker or one of two long-lived wakers (also through recv()), sender-from-receiver, drop receiver} with <=3 senders, applied to local_channel::mpsc and to a reference queue model; send must fail exactly when the receiver is gone or the channel closed (returning the item); poll_next must equal the model; a Pending poll's waker must be woken by the next successful send, the last sender's drop and close (extra wake-ups allowed); a final drain must return the buffered items in order; non-trivial = a Pending poll followed by send/last-drop/close, or close with a live sender followed by a poll";
 
 pub fn run(ctx: &Ctx) {
-    ctx.assume("single-threaded use (the channel is !Send); wake-ups observed through counting wakers, one fresh waker per poll");
+    ctx.assume("single-threaded use (the channel is !Send); wake-ups observed through counting wakers, one fresh waker per poll or one of two long-lived wakers");
     ctx.run_corpus::<Case>("ops", check_case);
     let max_len = ctx.tier.pick(7u32, 8u32);
     let k = ALPHA.len() as u64;
@@ -280,7 +314,7 @@ pub fn run(ctx: &Ctx) {
         check_case,
     );
     ctx.run_random(
-        Part::new("ops", RULE, ctx.tier.scale(40_000, 20)).floors(&[("wake-after-pending", 0.3), ("poll-after-close", 0.1), ("received>=2", 0.3)]),
+        Part::new("ops", RULE, ctx.tier.scale(40_000, 20)).floors(&[("wake-after-pending", 0.3), ("poll-after-close", 0.1), ("received>=2", 0.3), ("same-waker-repoll", 0.03)]),
         strategy,
         check_case,
     );
